@@ -889,6 +889,14 @@ func (e *SpecEnv) call(x *ECall) Val {
 		v := e.eval(x.Args[0])
 		k := HeapKey{"CH$closed", "(Array Int Bool)"}
 		return boolVal(sx("select", e.heapRead(k), v.s()))
+	case "oncedone":
+		// oncedone(x.once): the sync.Once field of object x has run its function (one Once field per object is assumed)
+		sel, ok := x.Args[0].(*ESel)
+		if !ok {
+			sfail("oncedone(obj.field)")
+		}
+		v := e.eval(sel.X)
+		return boolVal(sx("select", e.heapRead(HeapKey{"ONCE$done", "(Array Int Bool)"}), v.s()))
 	case "calls":
 		// calls(name): how many calls of the named function / method this execution path has made so far
 		id2, ok := x.Args[0].(*EIdent)
